@@ -213,21 +213,43 @@ func ruleTextEditChecked(p *Prog, r *Res, rule string) {
 // editRetests: the other conjuncts of a guard `A && !check(def)` are tested again (textually) by an if that encloses
 // the edit, so on the way to the edit A holds and the guard's false edge means check(def).
 func editRetests(f *Fn, edit ast.Node, conj []ast.Expr, check ast.Expr) bool {
-	p := f.Pkg
-	_ = p
+	info := f.Pkg.TypesInfo
+	// a named boolean stands for its one definition (the CFG's condition nodes have them expanded, the tree has not)
+	norm := func(e ast.Expr) string {
+		e = ast.Unparen(e)
+		if id, isId := e.(*ast.Ident); isId {
+			if o := info.Uses[id]; o != nil {
+				var defs []ast.Expr
+				ast.Inspect(f.Root().Body(), func(x ast.Node) bool {
+					if as, ok := x.(*ast.AssignStmt); ok && len(as.Lhs) == len(as.Rhs) {
+						for i, l := range as.Lhs {
+							if identObj(info, l) == o {
+								defs = append(defs, as.Rhs[i])
+							}
+						}
+					}
+					return true
+				})
+				if len(defs) == 1 {
+					return types.ExprString(ast.Unparen(defs[0]))
+				}
+			}
+		}
+		return types.ExprString(e)
+	}
 	ok := true
 	for _, c := range conj {
 		if c == check {
 			continue
 		}
-		want := types.ExprString(ast.Unparen(c))
+		want := norm(c)
 		found := false
 		inspectParents(f.Body(), func(x ast.Node, parents []ast.Node) bool {
 			if x == edit {
 				for _, par := range parents {
 					if ifs, isIf := par.(*ast.IfStmt); isIf {
 						for _, cc := range conjuncts(ifs.Cond) {
-							if types.ExprString(ast.Unparen(cc)) == want {
+							if norm(cc) == want {
 								found = true
 							}
 						}
